@@ -231,7 +231,10 @@ def run_check(pid, tier, seed):
     all_fail = None
     unstable = []
     fn_results = {}
-    for k, sd in enumerate(seeds):
+    k = -1
+    while k + 1 < len(seeds):
+        k += 1
+        sd = seeds[k]
         vr = verus_run.run_verus(crate, modules if tier == 'quick' else [], rlimit=60, seed=sd if (k or sd) else 0,
                                  log_path=os.path.join(scratch, 'verus-%d.log' % k))
         attr = verus_run.Attribution(crate, meta)
@@ -275,6 +278,10 @@ def run_check(pid, tier, seed):
             first_undec = [u for u in first_undec if any((u.get('fn') == v.get('fn')) for v in undecided_here)]
         say(pid, 'verus (seed %d, modules %s): %s verified, %s errors, %.1f s'
             % (sd, ','.join(modules) if tier == 'quick' else 'all', runs[-1]['verified'], runs[-1]['errors'], vr['wall_s']))
+        if tier == 'quick' and k == 0 and (all_fail or first_undec):
+            # something failed: before it is reported, the same obligations get two more chances with other solver seeds
+            # (an obligation counts as failed only if no seed proves it; costs nothing on a tree where everything verifies)
+            seeds += [sd + 1, sd + 2]
     if not runs[0]['verified']:
         say(pid, 'UNDECIDED (exit 2): Verus verified zero functions')
         return 2
